@@ -32,13 +32,28 @@ def run_check(prop, src, out):
 
 
 def main():
-    want = sys.argv[1:]
+    import concurrent.futures as cf
+    want = [a for a in sys.argv[1:] if not a.startswith("-j")]
+    par = max([int(a[2:]) for a in sys.argv[1:] if a.startswith("-j")] or [1])
+    names = sorted(os.listdir(os.path.join(VERIF, "seeded")))
+    names = [n for n in names if os.path.isfile(os.path.join(VERIF, "seeded", n, "patch.diff"))
+             and (not want or any(n.startswith(w) for w in want))]
+    res = {}
+    with cf.ThreadPoolExecutor(max_workers=par) as ex:
+        for name, r in zip(names, ex.map(one, names)):
+            res[name] = r
+            print(name, json.dumps(r)[:300], flush=True)
+    bad = sum(1 for v in res.values() if v.get("error") or (v.get("kind") == "breaking" and not v.get("caught"))
+              or (v.get("kind") in ("benign", "neutralised") and not v.get("ok")))
+    finish(res, want, bad)
+
+
+def one(name):
     res = {}
     bad = 0
-    names = sorted(os.listdir(os.path.join(VERIF, "seeded")))
-    for name in names:
+    for name in [name]:
         d = os.path.join(VERIF, "seeded", name)
-        if not os.path.isfile(os.path.join(d, "patch.diff")) or (want and not any(name.startswith(w) for w in want)):
+        if not os.path.isfile(os.path.join(d, "patch.diff")):
             continue
         tmp = tempfile.mkdtemp(prefix="verif-sreg-")
         try:
@@ -63,12 +78,22 @@ def main():
                 prop = re.match(r"(C\d\d)-", name).group(1)
                 rc, lines = run_check(prop, src, os.path.join(tmp, "out"))
                 rules = sorted(set(m.group(1) for l in lines for m in [re.search(r"rule=(\S+)", l)] if m))
+                neut = json.load(open(os.path.join(d, "meta.json"))).get("neutralised_by_fix")
+                if neut:
+                    # a later "fix:" commit in /repo removed the weakness this change exploited: its demonstration
+                    # passes on the current tree, so the check is expected to stay green (an alarm is not an error)
+                    res[name] = {"kind": "neutralised", "property": prop, "exit": rc, "by": neut.get("commit"),
+                                 "ok": rc in (0, 1), "rules": rules[:6]}
+                    continue
                 res[name] = {"kind": "breaking", "property": prop, "exit": rc, "caught": rc == 1, "rules": rules[:6]}
                 if rc != 1:
                     bad += 1
-            print(name, json.dumps(res[name])[:300], flush=True)
         finally:
             shutil.rmtree(tmp, ignore_errors=True)
+    return res.get(name, {"error": "skipped"})
+
+
+def finish(res, want, bad):
     path = os.path.join(VERIF, "selftest", "seeded_regression_results.json")
     if want and os.path.exists(path):
         old = json.load(open(path))
@@ -77,8 +102,9 @@ def main():
     with open(path, "w") as f:
         json.dump(res, f, indent=1, sort_keys=True)
     n_b = sum(1 for v in res.values() if v.get("kind") == "breaking")
-    print("breaking=%d caught=%d benign=%d green=%d bad=%d" % (
-        n_b, sum(1 for v in res.values() if v.get("caught")), sum(1 for v in res.values() if v.get("kind") == "benign"),
+    print("breaking=%d caught=%d neutralised-by-fix=%d benign=%d green=%d bad=%d" % (
+        n_b, sum(1 for v in res.values() if v.get("caught")), sum(1 for v in res.values() if v.get("kind") == "neutralised"),
+        sum(1 for v in res.values() if v.get("kind") == "benign"),
         sum(1 for v in res.values() if v.get("kind") == "benign" and v.get("ok")), bad))
     sys.exit(1 if bad else 0)
 
